@@ -10,6 +10,22 @@ forms of the property (`spec`); the theorems of Props/C02 say these agree.
 Source modes: `finite` (need(K)+slack items), `trip` (exactly need(K) items, then a trip-wire
 that raises when touched), `endless`.  need(K) comes from the Lean spec (driver query made by
 the generator), never from Python.
+
+Auxiliary sources.  Every registry entry DECLARES its stream-valued arguments (`aux=`): name and
+read rule.  The harness wraps each of them in its own counting source — again finite / trip-wire
+/ endless, sized from the Lean spec (`aux_need`) — and compares its pull counter at construction
+(0), after iter() (0) and after every next() with the Lean model (generator protocol on the
+auxiliary-source view of the stage) and the Lean spec (closed form):
+  lockstep  = pulls of the stage's main input   (operands, zip partners, coefficient / cut-off /
+              frequency / phase / modulo / step streams: the stage is a stage over the pair source)
+  lag1      = outputs of the stage - 1          (`resample` old/new streams: the step is read after
+              the yield; two-source model `rsStepS`, theorems need_resample_step, resample_two_source)
+  event     = outputs - ceil(delta - 1/2)       (data of every Streamix event)
+  never     = 0 while the main source lasts     (streams appended after it: append / chain / Stream(a, b))
+`ctl` cases replay a ControlStream history (value set before every next()) against the same stage
+fed with plain streams holding, read by read, the values that read discipline makes visible: the
+outputs must be identical, i.e. a change made between two next() reaches exactly the reads made
+afterwards.
 """
 import itertools as it
 import json
@@ -21,8 +37,11 @@ from common import err_kind
 
 ID = "C02"
 RULE = ("every registry stage x >=3 parameter sets x 3 source modes (finite+slack, exact+trip-wire, endless), "
-        "K=12 consecutive next() per case (so k=0..12 each), plus random chains of compatible stages "
-        "(depth<=3 quick, <=5 thorough) with counting taps at every boundary, plus take/peek consumers; "
+        "K=12 consecutive next() per case (so k=0..12 each), plus every stage with stream-valued arguments x "
+        "3 kinds of auxiliary source (finite+slack, exact+trip-wire, endless) with a counter on each declared "
+        "argument, plus random chains of compatible stages "
+        "(depth<=3 quick, <=5 thorough; every fifth with an auxiliary-source stage at a random position) with "
+        "counting taps at every boundary, plus ControlStream histories, plus take/peek consumers; "
         "a case is non-trivial when at least one output was demanded and delivered; distinct = distinct JSON case")
 TRUSTED = [
     "hand-written Lean models ALV/Model/C02.lean of the READ DISCIPLINE of each stage (prologue / one read per loop "
@@ -36,14 +55,23 @@ TRUSTED = [
     "Stream.peek(n)/take(n) are consumers (they read n items when called, never n+1)",
     "filter `memory=` iterables are parameters, not sources: they are read when the filter is called (lm+1 items "
     "through takewhile); not covered by the property",
+    "read rules of auxiliary (stream-valued) arguments as declared in the registry: lock-step with the main input "
+    "(documented: `modulo_counter`/`sinusoid`/`TableLookup` zip their arguments, the generated filter loop does one "
+    "next(coefficient) per input sample), `resample` step = outputs-1 (code: `idx += next(step)` after the yield), "
+    "Streamix event = outputs - ceil(T - 1/2) for the absolute event time T; modulo_counter/sinusoid read the step "
+    "value together with the start value (BEFORE the yield) - that is the library's documented zip discipline, so a "
+    "ControlStream frequency change reaches the output after the next one",
+    "ControlStream histories compare the real code with itself (ControlStream arguments vs. plain streams scheduled "
+    "from the Lean spec's read counters); outputs are compared by repr",
 ]
 ASSUMPTIONS = [
     "count/trip/endless modes: sources are long enough for the K demanded outputs; the `drain` mode (finite source consumed "
     "to its end, pull counter at every output incl. the epilogue) is run only for stages whose end-of-source behaviour is "
     "not a defect owned by C03/C09/C19/C20 (D1, D6, D7, D11)",
-    "auxiliary sources (zip partners, coefficient streams, modulo_counter arguments) are lock-step: their pull counter must "
-    "equal the pull counter of the stage's main input (pair-source model, theorem lockstep_two_sources); resample with a "
-    "time-varying step stream is not covered",
+    "auxiliary sources are long enough for the K demanded outputs (finite: needed+slack, trip: exactly the needed items); "
+    "their end-of-stream behaviour belongs to C06/C19 (D13); in `drain` mode they are endless and not compared",
+    "resample step streams: exact non-negative rational values (old/new cyclic patterns), at most one time-varying "
+    "resample per chain (its step list for the model is sized from the demand of the chain behind it, <= 1500 values)",
     "size>=1, hop>=1, hop<=size for overlap-add/STFT, resample order>=1 and old/new>0 (exact Fractions), Streamix delta>=0",
     "Stream.filter has no bound (the property gives none): its reads are compared with the position of the k-th passing item",
 ]
@@ -63,8 +91,9 @@ class TripWire(Exception):
 class Src(object):
     """Counting source iterator.  n=None: endless.  trip: raise TripWire instead of ending."""
 
-    def __init__(self, n=None, trip=False, vals="signed", salt=0, cap=None):
+    def __init__(self, n=None, trip=False, vals="signed", salt=0, cap=None, seq=None):
         self.n, self.trip, self.vals, self.salt = n, trip, vals, salt
+        self.seq = seq          # explicit value pattern (cycled), e.g. exact step values
         self.cap = cap          # endless sources: a stage draining them must not hang the check
         self.count = 0
         self.tripped = False
@@ -73,6 +102,8 @@ class Src(object):
         return self
 
     def value(self, i):
+        if self.seq is not None:
+            return self.seq[i % len(self.seq)]
         h = (i * 7 + 3 + self.salt * 5) % 11
         if self.vals == "pos":
             return h + 1
@@ -121,17 +152,29 @@ class Tap(object):
 
 
 class Ctx(object):
-    """Per-case build context: auxiliary counting sources created by the builders."""
+    """Per-case build context: the counting sources of the DECLARED auxiliary arguments."""
 
     def __init__(self):
-        self.aux = []          # (stage index, rule, Src)
+        self.aux = []          # (stage index, rule, name, source) in declaration order
         self.stage = 0
         self.cap = None
+        self.pending = {}      # name -> source, for the stage being built
+        self.maker = None      # callable(stage index, declaration, running index) -> source
 
-    def mk_aux(self, rule="lockstep", vals="pos"):
-        s = Src(None, vals=vals, salt=len(self.aux) + 1, cap=self.cap)
-        self.aux.append((self.stage, rule, s))
-        return s
+    def declare(self, stage, decls):
+        self.stage = stage
+        if self.pending:
+            raise common.InfraError("C02 registry: auxiliary sources %r declared but not used" % sorted(self.pending))
+        for d in decls:
+            src = self.maker(stage, d, len(self.aux))
+            self.aux.append((stage, d["rule"], d["name"], src))
+            self.pending[d["name"]] = src
+
+    def get(self, name):
+        """the counting source standing for the declared auxiliary argument `name`"""
+        if name not in self.pending:
+            raise common.InfraError("C02 registry: auxiliary source %r is not declared for this stage" % name)
+        return self.pending.pop(name)
 
 
 def _fr(x):
@@ -167,8 +210,23 @@ def _first_n_pred(n):
 REG = {}
 
 
-def reg(name, kin, kout, gen, build, model, head_only=False):
-    REG[name] = dict(name=name, kin=kin, kout=kout, gen=gen, build=build, model=model, head_only=head_only)
+NOAUX = lambda p: []
+
+
+def A(name, rule="lockstep", **kw):
+    """declaration of one auxiliary source: parameter name, read rule, optional value pattern
+    (`seq`), Streamix event time (`delta`), `ctl=False` when a control value cannot show in the output"""
+    return dict(dict(name=name, rule=rule), **kw)
+
+
+def reg(name, kin, kout, gen, build, model, head_only=False, aux=NOAUX):
+    """aux(p) -> declarations of the auxiliary (stream-valued) arguments the builder wraps in
+    counting sources; rule = expected pull count after each next():
+      lockstep  the pull counter of the stage's main input        (0 at construction and at iter())
+      lag1      outputs delivered by the stage - 1                 (resample step stream)
+      event     outputs delivered - ceil(delta - 1/2), at least 0  (data of a Streamix event)
+      never     0 while the main source lasts                      (a stream appended after it)"""
+    REG[name] = dict(name=name, kin=kin, kout=kout, gen=gen, build=build, model=model, head_only=head_only, aux=aux)
 
 
 def _al():
@@ -203,9 +261,11 @@ def _install():
     reg("takewhile", "any", "same", NOP, lambda s, p, c: al.takewhile(lambda v: True, s), SAMPLE)
     reg("cycle", "any", "same", NOP, lambda s, p, c: al.cycle(s), SAMPLE)
     reg("izip", "any", "same", NOP,
-        lambda s, p, c: al.imap(lambda t: t[0], al.izip(s, c.mk_aux())), lambda p: {"m": "cascade", "n": 2})
+        lambda s, p, c: al.imap(lambda t: t[0], al.izip(s, c.get("partner"))), lambda p: {"m": "cascade", "n": 2},
+        aux=lambda p: [A("partner", ctl=False)])
     reg("izip.longest", "any", "same", NOP,
-        lambda s, p, c: al.imap(lambda t: t[1], al.izip.longest(c.mk_aux(), s)), lambda p: {"m": "cascade", "n": 2})
+        lambda s, p, c: al.imap(lambda t: t[1], al.izip.longest(c.get("partner"), s)), lambda p: {"m": "cascade", "n": 2},
+        aux=lambda p: [A("partner", ctl=False)])
 
     def g_pat(rng, cx):
         n = rng.randint(0, 8)
@@ -244,6 +304,18 @@ def _install():
         lambda s, p, c: al.chain.from_iterable(iter([items(p, c), s])), PRE)
     reg("Stream(a,b)", "any", "same", g_items, lambda s, p, c: Stream(items(p, c), s), PRE)
 
+    # a STREAM appended after the main source: must not be touched while the main source lasts
+    def b_tail(s, p, c):
+        t = c.get("tail")
+        t = {"src": t, "stream": Stream(t), "gen": (v for v in t)}[p["other"]]
+        return {"append": lambda: Stream(s).append(t), "chain": lambda: al.chain(s, t),
+                "Stream": lambda: Stream(s, t), "star": lambda: al.chain.from_iterable(iter([s, t]))}[p["how"]]()
+    reg("append.stream", "any", "same",
+        lambda rng, cx: {"how": rng.choice(["append", "chain", "Stream", "star"]), "other": rng.choice(["src", "stream", "gen"])},
+        b_tail, SAMPLE, aux=lambda p: [A("tail", "never", ctl=False)])
+    reg("imap2", "any", "same", NOP, lambda s, p, c: al.imap(lambda a, b: a, s, c.get("partner")), SAMPLE,
+        aux=lambda p: [A("partner", ctl=False)])
+
     def b_copy(s, p, c):
         st = Stream(s)
         cp = st.copy()
@@ -277,13 +349,13 @@ def _install():
         lambda s, p, c: _UN[p["op"]](Stream(s)), SAMPLE)
 
     def b_biniter(s, p, c):
-        a = c.mk_aux()
+        a = c.get("other")
         other = {"src": a, "stream": Stream(a), "gen": (v for v in a)}[p["other"]]
         return _BIN[p["op"]](Stream(s), other)
     reg("op.iter", "s", "s",
         lambda rng, cx: {"op": rng.choice(["add", "sub", "mul", "radd", "rsub", "rmul", "lt", "truediv"]),
                          "other": rng.choice(["src", "stream", "gen"])},
-        b_biniter, SCAN)
+        b_biniter, SCAN, aux=lambda p: [A("other")])
     reg("Stream.real", "s", "s", NOP, lambda s, p, c: Stream(s).real, SAMPLE)
 
     def b_thub(s, p, c):
@@ -327,45 +399,63 @@ def _install():
         return f(s, memory=mem, zero=p["zero"])
     reg("ZFilter.__call__", "s", "s", g_coefs, b_lti, SCAN)
 
+    TV_COEFS = {"b0": ["b0"], "b1": ["b1"], "a1": ["a1"], "a0": ["a0"], "a0a1": ["a0", "a2"],
+                "b0b2a1": ["b0", "b2", "a1"], "gain": ["g"]}
+
     def b_tv(s, p, c):
         where = p["where"]
+        cf = lambda name: Stream(c.get(name))
         if where == "b0":
-            f = Stream(c.mk_aux()) + z ** -1
+            f = cf("b0") + z ** -1
         elif where == "b1":
-            f = 1 + Stream(c.mk_aux()) * z ** -1
+            f = 1 + cf("b1") * z ** -1
         elif where == "a1":
-            f = 1 / (1 + Stream(c.mk_aux()) * z ** -1)
+            f = 1 / (1 + cf("a1") * z ** -1)
         elif where == "a0":          # variable output gain branch
-            f = (1 + z ** -1) / (Stream(c.mk_aux()) + F(1, 2) * z ** -1)
+            f = (1 + z ** -1) / (cf("a0") + F(1, 2) * z ** -1)
         elif where == "a0a1":
-            f = 1 / (Stream(c.mk_aux()) + Stream(c.mk_aux()) * z ** -2)
+            f = 1 / (cf("a0") + cf("a2") * z ** -2)
+        elif where == "gain":        # a gain stream multiplying a whole LTI filter
+            f = (1 + F(1, 2) * z ** -1) * thub(c.get("g"), 2)
         else:
-            f = (Stream(c.mk_aux()) + Stream(c.mk_aux()) * z ** -2) / (1 - Stream(c.mk_aux()) * z ** -1)
+            f = (cf("b0") + cf("b2") * z ** -2) / (1 - cf("a1") * z ** -1)
         return f(s, zero=0)
     reg("ZFilter.timevarying", "s", "s",
-        lambda rng, cx: {"where": rng.choice(["b0", "b1", "a1", "a0", "a0a1", "b0b2a1"])}, b_tv, SCAN)
+        lambda rng, cx: {"where": rng.choice(sorted(TV_COEFS))}, b_tv, SCAN,
+        aux=lambda p: [A(n) for n in TV_COEFS[p["where"]]])
 
     def b_design(s, p, c):
         k = p["kind"]
         tv = p["tv"]
-        par = lambda: (Stream(c.mk_aux()) * .1) if tv else .3
         if k.startswith("lowpass") or k.startswith("highpass"):
             fam, strat = k.split(".")
-            f = getattr(al, fam)[strat](par())
+            f = getattr(al, fam)[strat]((Stream(c.get("cutoff")) * .1) if tv else .3)
         elif k.startswith("resonator"):
-            f = al.resonator[k.split(".")[1]](par(), .1)
+            f = al.resonator[k.split(".")[1]]((Stream(c.get("freq")) * .1) if tv else .3,
+                                              (Stream(c.get("bandwidth")) * .02) if p.get("bw") else .1)
         elif k == "comb.fb":
-            f = al.comb.fb(3, (Stream(c.mk_aux()) * .1) if tv else .5)
+            f = al.comb.fb(3, (Stream(c.get("alpha")) * .1) if tv else .5)
         elif k == "comb.tau":
-            f = al.comb.tau(3, (Stream(c.mk_aux()) * 10) if tv else 20)
+            f = al.comb.tau(3, (Stream(c.get("tau")) * 10) if tv else 20)
         else:
-            f = al.comb.ff(2, (Stream(c.mk_aux()) * .1) if tv else .5)
+            f = al.comb.ff(2, (Stream(c.get("alpha")) * .1) if tv else .5)
         return f(s)
     DESIGNS = ["lowpass.pole", "lowpass.z", "lowpass.pole_exp", "lowpass.z_exp", "highpass.pole", "highpass.z",
                "highpass.pole_exp", "highpass.z_exp", "resonator.poles_exp", "resonator.freq_poles_exp",
                "resonator.z_exp", "resonator.freq_z_exp", "comb.fb", "comb.tau", "comb.ff"]
-    reg("filter.design", "s", "s", lambda rng, cx: {"kind": rng.choice(DESIGNS), "tv": rng.random() < .4},
-        b_design, SCAN)
+
+    def a_design(p):
+        k = p["kind"]
+        out = []
+        if p["tv"]:
+            out.append(A("cutoff" if k.startswith(("lowpass", "highpass")) else
+                         "freq" if k.startswith("resonator") else "tau" if k == "comb.tau" else "alpha"))
+        if p.get("bw") and k.startswith("resonator"):
+            out.append(A("bandwidth"))
+        return out
+    reg("filter.design", "s", "s",
+        lambda rng, cx: {"kind": rng.choice(DESIGNS), "tv": rng.random() < .5, "bw": rng.random() < .3},
+        b_design, SCAN, aux=a_design)
 
     def g_flist(rng, cx):
         n = rng.choice([0, 1, 2, 2, 3])
@@ -402,24 +492,36 @@ def _install():
     reg("unwrap", "s", "s", NOP, lambda s, p, c: al.unwrap(s), lambda p: {"m": "first"})
 
     # --- synth with stream arguments ---------------------------------------------------------------------
+    MODC_ARGS = {"start": ("modulo", "step"), "modulo": ("start", "step"), "step": ("start", "modulo")}
+
     def b_modc(s, p, c):
         w = p["which"]
-        aux = lambda: c.mk_aux()
-        other = lambda flag, const: aux() if flag else const
-        if w == "start":
-            return al.modulo_counter(s, other(p["a1"], 7), other(p["a2"], p["step"]))
-        if w == "modulo":
-            return al.modulo_counter(other(p["a1"], 0), Stream(s).map(lambda v: abs(v) + 2), other(p["a2"], p["step"]))
-        return al.modulo_counter(other(p["a1"], 0), other(p["a2"], 7), s)
+        n1, n2 = MODC_ARGS[w]
+        mod_of = lambda src: Stream(src).map(lambda v: abs(v) + 2)
+        arg = {w: mod_of(s) if w == "modulo" else s}
+        for flag, name in ((p["a1"], n1), (p["a2"], n2)):
+            if flag:
+                arg[name] = mod_of(c.get(name)) if name == "modulo" else c.get(name)
+            else:
+                arg[name] = {"start": 0, "modulo": 7, "step": p["step"]}[name]
+        return al.modulo_counter(arg["start"], arg["modulo"], arg["step"])
     reg("modulo_counter", "s", "s",
         lambda rng, cx: {"which": rng.choice(["start", "modulo", "step"]), "a1": rng.random() < .4,
                          "a2": rng.random() < .4, "step": rng.choice([0, 1, 2, 5, 9])},
-        b_modc, lambda p: {"m": "scan"} if p["which"] != "modulo" else {"m": "cascade", "n": 2})
-    reg("sinusoid", "s", "s", lambda rng, cx: {"phase": rng.random() < .3},
-        lambda s, p, c: al.sinusoid(Stream(s) * .1, phase=Stream(c.mk_aux()) if p["phase"] else 0.),
-        lambda p: {"m": "cascade", "n": 3})
-    reg("TableLookup.__call__", "s", "s", NOP,
-        lambda s, p, c: al.sin_table(Stream(s) * .01), lambda p: {"m": "cascade", "n": 4})
+        b_modc, lambda p: {"m": "scan"} if p["which"] != "modulo" else {"m": "cascade", "n": 2},
+        aux=lambda p: [A(n) for f, n in zip((p["a1"], p["a2"]), MODC_ARGS[p["which"]]) if f])
+
+    def b_sin(s, p, c):
+        if p.get("main") == "phase":      # the counted main source is the phase, the frequency is auxiliary
+            return al.sinusoid(Stream(c.get("freq")) * .1, phase=Stream(s) * .1)
+        return al.sinusoid(Stream(s) * .1, phase=(Stream(c.get("phase")) * .1) if p["phase"] else 0.)
+    reg("sinusoid", "s", "s",
+        lambda rng, cx: {"phase": rng.random() < .4, "main": rng.choice(["freq", "freq", "phase"])},
+        b_sin, lambda p: {"m": "cascade", "n": 3},
+        aux=lambda p: [A("freq")] if p.get("main") == "phase" else ([A("phase")] if p["phase"] else []))
+    reg("TableLookup.__call__", "s", "s", lambda rng, cx: {"phase": rng.random() < .5},
+        lambda s, p, c: al.sin_table(Stream(s) * .01, phase=(Stream(c.get("phase")) * .1) if p.get("phase") else 0.),
+        lambda p: {"m": "cascade", "n": 4}, aux=lambda p: [A("phase")] if p.get("phase") else [])
 
     # --- blocks / overlap-add / stft --------------------------------------------------------------------
     def g_blocks(rng, cx):
@@ -482,21 +584,69 @@ def _install():
         lambda s, p, c: al.resample(s, old=F(p["old"]), new=F(p["new"]), order=p["order"], zero=0),
         lambda p: {"m": "resample", "order": p["order"], "step": str(F(p["old"], p["new"]))})
 
+    # time-varying step: old and/or new are Streams over counting sources with exact values
+    STEP_POOL = ["1/4", "1/3", "1/2", "2/3", "3/4", 1, 1, "5/4", "3/2", 2, "5/2", 3, "7/3", 4]
+
+    def g_rstv(rng, cx):
+        which = rng.choice(["old", "new", "both"])
+        seq = lambda: [rng.choice(STEP_POOL) for _ in range(rng.choice([1, 2, 3, 3, 5]))]
+        const = lambda: rng.choice([1, 1, 2, 3, "1/2"])
+        old = seq() if which in ("old", "both") else const()
+        new = seq() if which in ("new", "both") else const()
+        if which == "old" and rng.random() < .15:
+            old[rng.randrange(len(old))] = 0          # a step of 0 repeats the output, reads nothing
+        return {"old": old, "new": new, "order": rng.randint(1, 6), "form": rng.choice(["stream", "gen"])}
+
+    def rstv_steps(p, n):
+        o, w = p["old"], p["new"]
+        at = lambda v, i: F(v[i % len(v)]) if isinstance(v, list) else F(v)
+        return [at(o, i) / at(w, i) for i in range(n)]
+
+    def b_rstv(s, p, c):
+        def arg(name):
+            v = p[name]
+            if not isinstance(v, list):
+                return F(v)
+            src = c.get(name)
+            return Stream(src) if p.get("form") != "gen" else Stream(x for x in src)
+        return al.resample(s, old=arg("old"), new=arg("new"), order=p["order"], zero=0)
+    reg("resample.tv", "s", "s", g_rstv, b_rstv,
+        lambda p: {"m": "resampleTV", "order": p["order"],
+                   "steps": [common.enc(v) for v in rstv_steps(p, p.get("nsteps", 16))]},
+        aux=lambda p: [A(n, "lag1", seq=p[n]) for n in ("old", "new") if isinstance(p[n], list)])
+
     def g_smix(rng, cx):
         d = rng.choice([0, 1, 2, 3, "1/2", "5/2", "3/2", "7/4", "9/4", 0.5, 2.5, 4.49, rng.randint(0, 9)])
+        ev = [rng.choice([0, 1, 2, "1/2", "3/2", "5/2", "1/4", 3]) for _ in range(rng.choice([0, 0, 1, 1, 2]))]
         return {"delta": d if not isinstance(d, float) else str(F(d)), "float": isinstance(d, float),
-                "bg": rng.random() < .5, "keep": rng.random() < .3}
+                "bg": rng.random() < .5, "keep": rng.random() < .3, "ev": ev, "evpos": rng.choice(["after", "before"])}
+
+    def smix_events(p):
+        """[(name or None for the main source, relative delta)] in the order they are added"""
+        ev = [("event%d" % (i + 1), _fr(d)) for i, d in enumerate(p.get("ev", []))]
+        main = (None, _fr(p["delta"]))
+        return ev + [main] if p.get("evpos") == "before" and ev else [main] + ev
+
+    def smix_abs(p):
+        t, out = F(0), {}
+        for name, d in smix_events(p):
+            t += F(d)
+            out[name] = t
+        return out
 
     def b_smix(s, p, c):
         m = al.Streamix(keep=p["keep"], zero=0)
-        d = _fr(p["delta"])
-        if p["float"]:
-            d = float(d)
         if p["bg"]:
             m.add(0, it.repeat(0))
-        m.add(d, s)
+        for name, d in smix_events(p):
+            if p["float"]:
+                d = float(d)
+            m.add(d, s if name is None else c.get(name))
         return m
-    reg("Streamix", "s", "s", g_smix, b_smix, lambda p: {"m": "smix", "delta": p["delta"]})
+    reg("Streamix", "s", "s", g_smix, b_smix,
+        lambda p: {"m": "smix", "delta": common.enc(smix_abs(p)[None])},
+        aux=lambda p: [A(n, "event", delta=common.enc(t)) for n, t in sorted(smix_abs(p).items(), key=lambda kv: str(kv[0]))
+                       if n is not None])
 
 
 _INSTALLED = False
@@ -521,15 +671,16 @@ def _out_kind(e, p, kind):
     return e["kout"]
 
 
-def _gen_chain(rng, depth, only=None):
+def _gen_chain(rng, depth, only=None, at=0):
     R = registry()
     names = sorted(R)
     chain, kind, bsize = [], "s", None
     for pos in range(depth):
-        if only is not None and pos == 0:
+        cand = [n for n in names if R[n]["kin"] in (kind, "any") and not (R[n]["head_only"] and pos > 0)]
+        if any(el["st"] == "resample.tv" for el in chain):      # one per chain: its step list is sized
+            cand = [n for n in cand if n != "resample.tv"]      # from the chain behind it
+        if only is not None and pos == at and (at == 0 or only in cand):
             cand = [only]
-        else:
-            cand = [n for n in names if R[n]["kin"] in (kind, "any") and not (R[n]["head_only"] and pos > 0)]
         name = rng.choice(cand)
         e = R[name]
         if e["kin"] not in (kind, "any"):
@@ -580,27 +731,77 @@ def _model_chain(c):
     return [R[el["st"]]["model"](el["p"]) for el in c["chain"]]
 
 
+def _aux_decls(c):
+    """declared auxiliary sources of the whole chain, in the order the builders receive them"""
+    R = registry()
+    out = []
+    for i, el in enumerate(c["chain"]):
+        for d in R[el["st"]]["aux"](el["p"]):
+            out.append(dict(d, stage=i))
+    return out
+
+
+def _aux_req(c):
+    return [{k: v for k, v in d.items() if k in ("stage", "rule", "delta")} for d in _aux_decls(c)]
+
+
+MAXSTEPS = 1500     # longest step list sent to the model; longer demands are not generated
+
+
+def _size_steps(cases):
+    """resample.tv: the model needs the step values the stage may consume = outputs demanded from
+    it = what the chain BEHIND it needs for K outputs (asked from the Lean spec)."""
+    todo = []
+    for c in cases:
+        for i, el in enumerate(c["chain"]):
+            if el["st"] == "resample.tv" and "nsteps" not in el["p"]:
+                todo.append((c, i))
+    ask = [(c, i) for (c, i) in todo if i + 1 < len(c["chain"])]
+    outs = common.Driver().batch([{"id": ID, "entry": "reads", "n": 0, "k": c["k"],
+                                   "chain": _model_chain({"chain": c["chain"][i + 1:]})} for c, i in ask])
+    demand = {}
+    for (c, i), o in zip(ask, outs):
+        if "ok" not in o:
+            raise common.InfraError("C02 spec query rejected: %s for %s" % (o, json.dumps(c)[:300]))
+        demand[id(c)] = o["ok"]["need"]
+    for c, i in todo:
+        c["chain"][i] = {"st": "resample.tv", "p": dict(c["chain"][i]["p"], nsteps=min(demand.get(id(c), c["k"]) + 2, MAXSTEPS))}
+
+
+def _oversized(c):
+    return any(el["p"].get("nsteps", 0) >= MAXSTEPS for el in c.get("chain", []))
+
+
 def _attach(cases):
-    """Ask the Lean spec how many source items K outputs need; size the sources accordingly."""
+    """Ask the Lean spec how many items of the source and of every auxiliary source K outputs need;
+    size the sources accordingly."""
+    allcases = cases
+    cases = [c for c in cases if c.get("entry") in ("reads", "ctl")]
+    _size_steps(cases)
     for c in cases:
         if c.get("entry") == "reads" and c.get("mode") == "drain":
             c.setdefault("need", 0)
             c.setdefault("cap", c["n"] + 3000)
-    todo = [c for c in cases if c.get("entry") == "reads" and "need" not in c]
+            c.setdefault("aux_need", [0] * len(_aux_decls(c)))
+    todo = [c for c in cases if "need" not in c or "aux_need" not in c or (c["entry"] == "ctl" and "sched" not in c)]
     if not todo:
-        return cases
-    reqs = [{"id": ID, "entry": "reads", "chain": _model_chain(c), "n": 0, "k": c["k"]} for c in todo]
+        return allcases
+    reqs = [{"id": ID, "entry": "reads", "chain": _model_chain(c), "n": 0, "k": c["k"], "aux": _aux_req(c)} for c in todo]
     outs = common.Driver().batch(reqs)
     for c, o in zip(todo, outs):
         if "ok" not in o:
             raise common.InfraError("C02 spec query rejected: %s for %s" % (o, json.dumps(c)[:300]))
         c["need"] = o["ok"]["need"]
+        c["aux_need"] = o["ok"]["aux_need"]
+        if c["entry"] == "ctl":
+            c["sched"] = o["ok"]["aux_spec"]
         # no boundary legitimately carries more items than this (runaway guard for eager mutants)
-        c["cap"] = max([c["need"]] + [lv[-1] for lv in o["ok"]["spec"] if lv]) + 3000
-    return cases
+        c["cap"] = max([c["need"]] + [lv[-1] for lv in o["ok"]["spec"] if lv] + c["aux_need"]) + 3000
+    return allcases
 
 
 MODES = ("finite", "trip", "endless")
+AMODES = ("finite", "trip", "endless")     # the same three kinds for every auxiliary source
 # stages whose end-of-source behaviour is modelled here (epilogue `onEnd`) and is not one of the
 # defects owned by other properties (D1 skip/limit/take past the end, D6 resample, D7, D11)
 DRAIN_OK = {"Stream", "Stream.map", "imap", "Stream.__call__", "takewhile", "Stream.filter", "ifilter",
@@ -620,26 +821,74 @@ def _drainable(chain):
     return True
 
 
+def _aux_chain(rng, name, tries=12):
+    """single stage `name` with parameters for which it has at least one auxiliary source"""
+    R = registry()
+    for _ in range(tries):
+        chain = _gen_chain(rng, 1, only=name)
+        if R[name]["aux"](chain[-1]["p"]):
+            return chain
+    return None
+
+
+def _ctl_case(rng, name, K):
+    """ControlStream history: value set before every next(), for every auxiliary argument"""
+    chain = _aux_chain(rng, name)
+    if chain is None or len(chain) != 1:
+        return None
+    decls = [d for d in registry()[name]["aux"](chain[0]["p"])]
+    if not decls or not all(d.get("ctl", True) for d in decls):
+        return None
+    cv = []
+    for d in decls:
+        pool = d.get("seq") or [1, 2, 3, 5, 7, 9]
+        pool = [v for v in pool if F(v) != 0] or [1]
+        pool = sorted(set(pool + [rng.choice(["1/2", 2, 3])]), key=lambda v: F(v)) if d["rule"] == "lag1" else pool
+        vals, cur = [], rng.choice(pool)
+        for _ in range(K):
+            if rng.random() < .6:
+                cur = rng.choice([v for v in pool if v != cur] or pool)
+            vals.append(cur)
+        cv.append(vals)
+    return {"entry": "ctl", "chain": chain, "k": K, "cv": cv}
+
+
 def generate(rng, tier, scale=1):
     R = registry()
     cases = []
     quick = tier == "quick"
     nsets = (8 if quick else 60) * scale
+    am = lambda: {"amode": rng.choice(AMODES), "aslack": rng.choice([1, 2, 9])}
     for name in sorted(R):
         for i in range(nsets):
             chain = _gen_chain(rng, 1, only=name)
             K = 12 if i % 4 else rng.choice([0, 1, 40] if quick else [0, 1, 40, 200])
             for mode in MODES:
-                cases.append({"entry": "reads", "chain": [dict(el) for el in chain], "k": K, "mode": mode,
-                              "slack": rng.choice([1, 2, 7, 30]), "vals": "pos" if R[name]["head_only"] or rng.random() < .3 else "signed"})
+                cases.append(dict({"entry": "reads", "chain": [dict(el) for el in chain], "k": K, "mode": mode,
+                              "slack": rng.choice([1, 2, 7, 30]), "vals": "pos" if R[name]["head_only"] or rng.random() < .3 else "signed"},
+                                  **am()))
+    # every stage with auxiliary (stream-valued) arguments x every kind of auxiliary source
+    aux_stages = [n for n in sorted(R) if R[n]["aux"] is not NOAUX]
+    for name in aux_stages:
+        for i in range((6 if quick else 40) * scale):
+            chain = _aux_chain(rng, name)
+            if chain is None:
+                continue
+            K = rng.choice([1, 2, 3, 5, 12] if quick else [1, 2, 3, 5, 12, 60])
+            for amode in AMODES:
+                cases.append({"entry": "reads", "chain": [dict(el) for el in chain], "k": K, "mode": rng.choice(MODES),
+                              "slack": rng.choice([1, 5]), "vals": rng.choice(["pos", "signed"]),
+                              "amode": amode, "aslack": rng.choice([1, 2, 9])})
     nchains = (1500 if quick else 12000) * scale
     maxd = 3 if quick else 5
-    for _ in range(nchains):
-        chain = _gen_chain(rng, rng.randint(2, maxd))
+    for j in range(nchains):
+        only = rng.choice(aux_stages) if j % 5 == 0 else None      # every fifth chain has an auxiliary source in it
+        depth = rng.randint(2, maxd)
+        chain = _gen_chain(rng, depth, only=only, at=rng.randrange(depth))
         head_pos = R[chain[0]["st"]]["head_only"]
-        cases.append({"entry": "reads", "chain": chain, "k": rng.choice([1, 2, 3, 5, 8, 12] if quick else [1, 3, 8, 12, 30]),
+        cases.append(dict({"entry": "reads", "chain": chain, "k": rng.choice([1, 2, 3, 5, 8, 12] if quick else [1, 3, 8, 12, 30]),
                       "mode": rng.choice(MODES), "slack": rng.choice([1, 3, 20]),
-                      "vals": "pos" if head_pos or rng.random() < .3 else "signed"})
+                      "vals": "pos" if head_pos or rng.random() < .3 else "signed"}, **am()))
     ndrain = (1000 if quick else 8000) * scale
     made = 0
     for _ in range(ndrain * 6):
@@ -651,19 +900,57 @@ def generate(rng, tier, scale=1):
         made += 1
         cases.append({"entry": "reads", "chain": chain, "k": 400, "mode": "drain", "n": rng.choice([0, 1, 2, 3, 5, 8, 13, rng.randint(0, 40)]),
                       "vals": "signed"})
+    # ControlStream histories: a value set between two next() must reach exactly the reads made afterwards
+    for name in aux_stages:
+        for i in range((10 if quick else 80) * scale):
+            c = _ctl_case(rng, name, rng.choice([2, 3, 4, 6, 9] if quick else [2, 3, 4, 6, 9, 25]))
+            if c is not None:
+                cases.append(c)
     if scale == 1:
         for n in range(0, 9):
             for ln in (n, n + 1, n + 5):
                 cases.append({"entry": "take", "n": n, "len": ln, "form": ("int", "float")[n % 2]})
             cases.append({"entry": "peek", "n": n, "k": 8, "hub": n % 3 == 0})
-    return _attach(cases)
+    return [c for c in _attach(cases) if not _oversized(c)]
 
 
 # ----------------------------------------------------------------------------------------------
 # impl
 # ----------------------------------------------------------------------------------------------
-def _run_reads(c):
+def _aux_maker(c, decls, RUNAWAY):
+    """counting source for the j-th declared auxiliary argument: finite (needed + slack items), trip
+    (exactly the items the Lean spec allows for K outputs, then a trip-wire) or endless"""
+    amode = c.get("amode", "endless") if c.get("mode") != "drain" else "endless"
+    need = c.get("aux_need") or []
+
+    def make(stage, d, j):
+        n = None
+        if amode != "endless" and j < len(need):
+            n = need[j] + (0 if amode == "trip" else c.get("aslack", 3))
+        seq = [F(v) for v in d["seq"]] if d.get("seq") else None
+        return Src(n, trip=(amode == "trip"), vals=d.get("vals", "pos"), salt=j + 1, cap=RUNAWAY, seq=seq)
+    return make
+
+
+def _build_chain(c, src, ctx, RUNAWAY):
     R = registry()
+    taps = [src]
+    kinds = _kinds(c["chain"])
+    cur = src
+    for i, el in enumerate(c["chain"]):
+        ctx.kind, ctx.bsize = kinds[i]
+        ctx.declare(i, R[el["st"]]["aux"](el["p"]))
+        out = R[el["st"]]["build"](cur, el["p"], ctx)
+        if i + 1 < len(c["chain"]):
+            cur = Tap(out, cap=RUNAWAY)
+            taps.append(cur)
+        else:
+            cur = out
+    ctx.declare(len(c["chain"]), [])      # every declared source must have been handed out
+    return cur, taps
+
+
+def _run_reads(c):
     K = c["k"]
     mode = c["mode"]
     if mode == "drain":
@@ -675,24 +962,12 @@ def _run_reads(c):
     ctx = Ctx()
     ctx.cap = RUNAWAY
     ctx.K = K
-    taps = [src]
-    kinds = _kinds(c["chain"])
-    cur = src
-    stage_objs = []
-    for i, el in enumerate(c["chain"]):
-        ctx.stage = i
-        ctx.kind, ctx.bsize = kinds[i]
-        out = R[el["st"]]["build"](cur, el["p"], ctx)
-        stage_objs.append(out)
-        if i + 1 < len(c["chain"]):
-            cur = Tap(out, cap=RUNAWAY)
-            taps.append(cur)
-        else:
-            cur = out
+    ctx.maker = _aux_maker(c, _aux_decls(c), RUNAWAY)
+    cur, taps = _build_chain(c, src, ctx, RUNAWAY)
     counts = lambda: [t.count for t in taps]
-    auxc = lambda: [a.count for (_i, _r, a) in ctx.aux]
-    obs = {"c0": counts() + auxc(), "levels": [[] for _ in taps], "aux": [[i, r, []] for (i, r, _a) in ctx.aux],
-           "outs": 0}
+    auxc = lambda: [a.count for (_i, _r, _n, a) in ctx.aux]
+    obs = {"c0": counts() + auxc(), "levels": [[] for _ in taps],
+           "aux": [[i, r, nm, []] for (i, r, nm, _a) in ctx.aux], "outs": 0}
     try:
         itr = iter(cur)
         obs["c1"] = counts() + auxc()
@@ -702,7 +977,7 @@ def _run_reads(c):
             for lv, v in zip(obs["levels"], counts()):
                 lv.append(v)
             for a, v in zip(obs["aux"], auxc()):
-                a[2].append(v)
+                a[3].append(v)
     except StopIteration:
         obs["ended"] = True
     except CaseTimeout:
@@ -710,7 +985,71 @@ def _run_reads(c):
     except Exception as e:  # TripWire, RuntimeError, ...
         obs["err"] = "OTHER:TripWire" if isinstance(e, TripWire) else err_kind(e)
         obs["errmsg"] = str(e)[:200]
+        obs["partial"] = counts() + auxc()      # pull counters when the exception came out
     obs["tripped"] = src.tripped
+    obs["aux_tripped"] = [nm for (_i, _r, nm, a) in ctx.aux if a.tripped]
+    return obs
+
+
+def _sched_values(sched, cv):
+    """the value a source read for the i-th time must deliver, when the read discipline of the
+    spec holds: read #i happens during the first next() whose predicted counter reaches i, and sees
+    the control value set just before that next()"""
+    out = []
+    for i in range(1, (sched[-1] if sched else 0) + 1):
+        j = next(k for k, v in enumerate(sched) if v >= i)
+        out.append(cv[j])
+    return out
+
+
+def _run_ctl(c):
+    """run A: every auxiliary argument is a real ControlStream, its value is set before every next().
+    run B: the same stage on plain finite streams holding, read by read, the values the documented
+    read discipline makes visible (then a trip-wire).  The outputs must be identical."""
+    al = _al()
+    K = c["k"]
+    decls = _aux_decls(c)
+    val = lambda d, v: F(v) if d.get("seq") is not None or isinstance(v, str) else v
+    runs = {}
+    for run in ("A", "B"):
+        ctx = Ctx()
+        ctls = []
+
+        def make(stage, d, j, run=run, ctls=ctls):
+            if run == "A":
+                cs = al.ControlStream(val(d, c["cv"][j][0]) if K else 1)
+                ctls.append(cs)
+                return cs
+            seq = [val(d, v) for v in _sched_values(c["sched"][j], c["cv"][j])]
+            # beyond the schedule (a read the spec does not allow): the last control value, counted
+            src_b = Src(None, seq=seq + [val(d, c["cv"][j][-1])] * 64 if K else [1], cap=len(seq) + 60)
+            scheduled.append((d["name"], len(seq), src_b))
+            return src_b
+        scheduled = []
+        ctx.maker = make
+        src = Src(None, vals=c.get("vals", "pos"), cap=c.get("cap", 5000))
+        outs = []
+        try:
+            cur, _taps = _build_chain(c, src, ctx, c.get("cap", 5000))
+            itr = iter(cur)
+            for k in range(K):
+                for j, cs in enumerate(ctls):
+                    cs.value = val(decls[j], c["cv"][j][k])
+                outs.append(repr(next(itr)))
+        except CaseTimeout:
+            raise
+        except Exception as e:
+            runs[run + "_err"] = ("OTHER:TripWire" if isinstance(e, TripWire) else err_kind(e)) + ": " + str(e)[:120]
+        runs[run] = outs
+        if run == "B":
+            over = ["%s: %d read(s), %d scheduled" % (nm, sb.count, n) for (nm, n, sb) in scheduled if sb.count > n]
+    first = next((k for k in range(K) if k >= len(runs["A"]) or k >= len(runs["B"]) or runs["A"][k] != runs["B"][k]), None)
+    obs = {"outs": len(runs["A"]), "first_diff": first, "a": runs["A"][:K], "b": runs["B"][:K]}
+    for k in ("A_err", "B_err"):
+        if k in runs:
+            obs[k] = runs[k]
+    if over:
+        obs["over"] = over
     return obs
 
 
@@ -727,14 +1066,14 @@ CASE_TIMEOUT = 4
 
 def impl(c):
     al = _al()
-    if c["entry"] == "reads":
-        if "need" not in c:
+    if c["entry"] in ("reads", "ctl"):
+        if "need" not in c or "aux_need" not in c or (c["entry"] == "ctl" and "sched" not in c):
             _attach([c])
         import signal
         old = signal.signal(signal.SIGALRM, _alarm)
         signal.setitimer(signal.ITIMER_REAL, CASE_TIMEOUT)
         try:
-            return _run_reads(c)
+            return _run_reads(c) if c["entry"] == "reads" else _run_ctl(c)
         except CaseTimeout as e:
             return {"err": "OTHER:Timeout", "errmsg": str(e)}
         except Exception as e:
@@ -768,11 +1107,13 @@ def impl(c):
 
 
 def request(c):
+    if c["entry"] == "ctl":
+        return {"entry": "reads", "chain": _model_chain(c), "n": c["need"] + 8, "k": c["k"], "aux": _aux_req(c)}
     if c["entry"] == "reads":
         if c["mode"] == "drain":
-            return {"entry": "reads", "chain": _model_chain(c), "n": c["n"], "k": c["k"]}
+            return {"entry": "reads", "chain": _model_chain(c), "n": c["n"], "k": c["k"], "aux": _aux_req(c)}
         n = c["need"] + (64 if c["mode"] == "endless" else (0 if c["mode"] == "trip" else c["slack"]))
-        return {"entry": "reads", "chain": _model_chain(c), "n": n, "k": c["k"]}
+        return {"entry": "reads", "chain": _model_chain(c), "n": n, "k": c["k"], "aux": _aux_req(c)}
     return {k: v for k, v in c.items() if k in ("entry", "n", "len", "k")}
 
 
@@ -780,7 +1121,11 @@ def _diff(c, io, drv, which):
     """list of human readable disagreements between impl observation and drv[which]"""
     out = []
     if "err" in io:
-        out.append("impl raised %s (%s) after %d outputs" % (io["err"], io.get("errmsg", ""), io.get("outs", 0)))
+        where = ""
+        if io.get("aux_tripped"):
+            where = "; trip-wire of auxiliary source(s) %s touched: read beyond the %r values the spec allows for %d outputs" % (
+                ", ".join(io["aux_tripped"]), c.get("aux_need"), c["k"])
+        out.append("impl raised %s (%s) after %d outputs%s" % (io["err"], io.get("errmsg", ""), io.get("outs", 0), where))
         return out
     if any(io["c0"]):
         out.append("construction pulled items: counts=%r (taps then aux)" % (io["c0"],))
@@ -805,16 +1150,46 @@ def _diff(c, io, drv, which):
             j = next(k for k in range(len(got)) if k >= len(exp) or got[k] != exp[k])
             out.append("stage %d (%s): pulls in front of it after next #%d: impl=%d %s=%s" % (
                 i, c["chain"][i]["st"], j + 1, got[j], which, exp[j] if j < len(exp) else "none"))
-    for (i, rule, got) in io["aux"]:
+    for a, (i, rule, name, got) in enumerate(io["aux"]):
         if drain:
             break
-        exp = want[i][:len(got)]
+        exp = drv["aux_" + which][a][:len(got)]
         if got != exp:
             j = next(k for k in range(len(got)) if k >= len(exp) or got[k] != exp[k])
-            out.append("stage %d (%s): auxiliary source pulls after next #%d: impl=%d %s=%s" % (
-                i, c["chain"][i]["st"], j + 1, got[j], which, exp[j] if j < len(exp) else "none"))
+            out.append("stage %d (%s): auxiliary source `%s` (rule %s) pulls after next #%d: impl=%d %s=%s" % (
+                i, c["chain"][i]["st"], name, rule, j + 1, got[j], which, exp[j] if j < len(exp) else "none"))
     if io.get("tripped"):
         out.append("trip-wire touched")
+    if io.get("aux_tripped"):
+        out.append("trip-wire of auxiliary source(s) %s touched" % ", ".join(io["aux_tripped"]))
+    return out
+
+
+def _diff_ctl(c, io, drv, which):
+    out = []
+    if "err" in io:
+        return ["impl raised %s (%s)" % (io["err"], io.get("errmsg", ""))]
+    if c.get("sched") != drv["aux_" + which]:
+        out.append("read schedule of the case is not the %s's: %r vs %r" % (which, c.get("sched"), drv["aux_" + which]))
+    st = c["chain"][0]["st"]
+    names = [d["name"] for d in _aux_decls(c)]
+    if "A_err" in io:
+        out.append("%s with ControlStream argument(s) %s raised %s after %d outputs" % (st, names, io["A_err"], len(io["a"])))
+    if "B_err" in io:
+        out.append("%s on the scheduled value streams raised %s after %d outputs (reads beyond the %r values the "
+                   "spec allows end in a trip-wire)" % (st, io["B_err"], len(io["b"]), [s_[-1] if s_ else 0 for s_ in c["sched"]]))
+    k = io.get("first_diff")
+    if k is not None and "A_err" not in io and "B_err" not in io:
+        hist = "; ".join("set %s, next() -> %s" % ([cv[j] for cv in c["cv"]], io["a"][j] if j < len(io["a"]) else "?")
+                         for j in range(min(k + 1, c["k"])))
+        # (an over-read that no output shows is left to the counting cases)
+        over = " (on the scheduled streams: %s)" % "; ".join(io["over"]) if io.get("over") else ""
+        out.append("%s, ControlStream argument(s) %s: history [%s]: output #%d is %s but the values set before each "
+                   "next() reach exactly the reads made afterwards only if it is %s%s" % (
+                       st, names, hist, k, io["a"][k] if k < len(io["a"]) else "missing",
+                       io["b"][k] if k < len(io["b"]) else "missing", over))
+    elif k is not None:
+        out.append("outputs differ from #%d on" % k)
     return out
 
 
@@ -825,6 +1200,11 @@ def compare(c, io, drv):
             out.append(("model", "model reads at construction"))
         for which in ("model", "spec"):
             for d in _diff(c, io, drv, which):
+                out.append((which, d))
+        return out
+    if c["entry"] == "ctl":
+        for which in ("model", "spec"):
+            for d in _diff_ctl(c, io, drv, which):
                 out.append((which, d))
         return out
     if c["entry"] == "take":
@@ -839,13 +1219,23 @@ def compare(c, io, drv):
 
 
 def nontrivial(c, io):
-    if c["entry"] == "reads":
+    if c["entry"] in ("reads", "ctl"):
         return io.get("outs", 0) > 0
     return "err" not in io
 
 
 def tally(eng, c, io):
     eng.count("entry", c["entry"])
+    if c["entry"] == "ctl":
+        el = c["chain"][0]
+        eng.count("ctl_stage", el["st"])
+        eng.count("ctl_k", c["k"])
+        for d, cv in zip(_aux_decls(c), c["cv"]):
+            eng.count("ctl_argument", "%s.%s" % (el["st"], d["name"]))
+            eng.count("ctl_value_changes", min(sum(1 for a, b in zip(cv, cv[1:]) if a != b), 5))
+        eng.count("ctl_result", "error" if ("A_err" in io or "B_err" in io or "err" in io) else
+                  "differs" if io.get("first_diff") is not None else "over-read" if io.get("over") else "identical")
+        return
     if c["entry"] != "reads":
         return
     eng.count("mode", c["mode"])
@@ -855,7 +1245,26 @@ def tally(eng, c, io):
         eng.count("stage", el["st"])
     for d in _model_chain(c):
         eng.count("model", d["m"])
-    eng.count("aux_sources", len(io.get("aux", [])))
+    decls = _aux_decls(c)
+    eng.count("aux_sources", len(decls))
+    amode = "endless" if c["mode"] == "drain" else c.get("amode", "endless")
+    for d in decls:
+        st = c["chain"][d["stage"]]["st"]
+        eng.count("aux_rule", d["rule"])
+        eng.count("aux_argument", "%s.%s" % (st, d["name"]))
+        eng.count("aux_source_kind", amode)
+        eng.count("aux_position_in_chain", "single stage" if len(c["chain"]) == 1 else
+                  "head" if d["stage"] == 0 else "last" if d["stage"] == len(c["chain"]) - 1 else "inner")
+    for a in io.get("aux", []):
+        if a[3]:
+            last, outs = a[3][-1], io["outs"]
+            eng.count("aux_pulls_vs_outputs", "%s: %s" % (a[1], "0" if last == 0 else "<k-1" if last < outs - 1 else
+                                                        "k-1" if last == outs - 1 else "k" if last == outs else ">k"))
+    for el in c["chain"]:
+        if el["st"] == "resample.tv":
+            p = el["p"]
+            eng.count("resample.tv_streams", "+".join(n for n in ("old", "new") if isinstance(p[n], list)))
+            eng.count("resample.tv_pattern_len", max(len(p[n]) for n in ("old", "new") if isinstance(p[n], list)))
     if "err" in io:
         eng.count("impl_error", io["err"])
     if io.get("levels") and io["levels"][0]:
@@ -864,8 +1273,8 @@ def tally(eng, c, io):
 
 
 def _strip(c):
-    d = {k: v for k, v in c.items() if k not in ("need", "cap")}
-    d["chain"] = [dict(el) for el in c["chain"]]
+    d = {k: v for k, v in c.items() if k not in ("need", "cap", "aux_need", "sched")}
+    d["chain"] = [{"st": el["st"], "p": {k: v for k, v in el["p"].items() if k != "nsteps"}} for el in c["chain"]]
     return d
 
 
@@ -873,23 +1282,88 @@ _SHRINK_CALLS = [0]
 SHRINK_BUDGET = 90     # shrink rounds per run (every round costs two driver calls)
 
 
+def _one_tv(chain):
+    return sum(1 for el in chain if el["st"] == "resample.tv") <= 1
+
+
+def _param_cands(c):
+    """smaller parameters, stage by stage (ints towards 1, lists halved / their values towards 1)"""
+    out = []
+    for i, el in enumerate(c["chain"]):
+        def with_p(**kw):
+            nc = _strip(c)
+            nc["chain"][i] = {"st": el["st"], "p": dict(nc["chain"][i]["p"], **kw)}
+            return nc
+        for key, val in el["p"].items():
+            if key == "nsteps":
+                continue
+            if isinstance(val, int) and not isinstance(val, bool) and val > 1 and key not in ("order",):
+                for v in sorted({1, val // 2, val - 1}):
+                    nc = with_p(**{key: v})
+                    if _well_kinded(nc["chain"]):
+                        out.append(nc)
+            elif isinstance(val, list) and len(val) > 1 and key in ("pat", "filters", "terms", "old", "new"):
+                out.append(with_p(**{key: val[:len(val) // 2]}))
+            elif isinstance(val, list) and val and key == "ev":
+                out.append(with_p(**{key: val[:-1]}))
+        if el["st"] == "resample.tv":
+            p = el["p"]
+            for key in ("old", "new"):
+                if isinstance(p[key], list):
+                    if any(str(v) != "1" for v in p[key]):
+                        out.append(with_p(**{key: [1] * len(p[key])}))
+                    other = "new" if key == "old" else "old"
+                    if isinstance(p[other], list):
+                        out.append(with_p(**{other: 1}))       # one stream-valued argument is enough
+                elif str(p[key]) != "1":
+                    out.append(with_p(**{key: 1}))
+            if p["order"] > 1:
+                out.append(with_p(order=1))
+            if p.get("form") != "stream":
+                out.append(with_p(form="stream"))
+    return out
+
+
 def shrink(c):
     """Few, strongly smaller candidates per round: single stages first, then k, then parameters."""
-    if c["entry"] != "reads":
+    if c["entry"] not in ("reads", "ctl"):
         return
     _SHRINK_CALLS[0] += 1
     if _SHRINK_CALLS[0] > SHRINK_BUDGET:
         return
     cands = []
     ch = c["chain"]
+    if c["entry"] == "ctl":
+        K = c["k"]
+        for v in sorted({1, K // 2, K - 1}):
+            if 0 < v < K:
+                cands.append(dict(_strip(c), k=v, cv=[cv[:v] for cv in c["cv"]]))
+        for j, cv in enumerate(c["cv"]):            # fewer value changes: repeat the first value longer
+            for k in range(1, K):
+                if cv[k] != cv[k - 1]:
+                    ncv = [list(x) for x in c["cv"]]
+                    ncv[j][k] = cv[k - 1]
+                    cands.append(dict(_strip(c), cv=ncv))
+                    break
+        for nc in _param_cands(c):
+            decls = _aux_decls(nc)
+            if len(decls) == len(c["cv"]) and [d["name"] for d in decls] == [d["name"] for d in _aux_decls(c)]:
+                cands.append(nc)
+        try:
+            _attach(cands)
+        except Exception:
+            return
+        for x in cands:
+            yield x
+        return
     if len(ch) > 1:
         for i in range(len(ch)):
             if _well_kinded([ch[i]]):
-                cands.append(dict(_strip(c), chain=[ch[i]]))
+                cands.append(dict(_strip(c), chain=[_strip({"chain": [ch[i]]})["chain"][0]]))
         for i in range(len(ch)):
             sub = ch[:i] + ch[i + 1:]
             if _well_kinded(sub):
-                cands.append(dict(_strip(c), chain=sub))
+                cands.append(dict(_strip(c), chain=_strip({"chain": sub})["chain"]))
     if c["mode"] == "drain":
         if c["n"] > 0:
             cands += [dict(_strip(c), n=v) for v in sorted({0, c["n"] // 2, c["n"] - 1})]
@@ -898,24 +1372,16 @@ def shrink(c):
         cands += [dict(_strip(c), k=v) for v in sorted({1, c["k"] // 2, c["k"] - 1})]
     if c["mode"] not in ("finite", "drain"):
         cands.append(dict(_strip(c), mode="finite", slack=5))
-    for i, el in enumerate(ch):
-        for key, val in el["p"].items():
-            if isinstance(val, int) and not isinstance(val, bool) and val > 1 and key not in ("order",):
-                for v in sorted({1, val // 2, val - 1}):
-                    nc = _strip(c)
-                    nc["chain"][i] = {"st": el["st"], "p": dict(el["p"], **{key: v})}
-                    if _well_kinded(nc["chain"]):
-                        cands.append(nc)
-            elif isinstance(val, list) and len(val) > 1 and key in ("pat", "filters", "terms"):
-                nc = _strip(c)
-                nc["chain"][i] = {"st": el["st"], "p": dict(el["p"], **{key: val[:len(val) // 2]})}
-                cands.append(nc)
+    if c.get("amode", "endless") != "endless" and c["mode"] != "drain":
+        cands.append(dict(_strip(c), amode="endless"))      # plain counting shows an over-read without a trip-wire
+    cands += _param_cands(c)
     try:
         _attach(cands)
     except Exception:
         return
     for x in cands:
-        yield x
+        if not _oversized(x):
+            yield x
 
 
 def neighbours(c):
@@ -929,25 +1395,42 @@ def neighbours(c):
         cands.append(dict(_strip(c), k=k, mode="finite", slack=3))
     for mode in MODES:
         cands.append(dict(_strip(c), mode=mode, slack=3, k=min(c["k"], 12)))
+    if _aux_decls(c) and c["mode"] != "drain":
+        for amode in AMODES:
+            cands.append(dict(_strip(c), amode=amode, aslack=2, k=min(c["k"], 12)))
     for el in c["chain"]:
         if _well_kinded([el]):
-            cands.append(dict(_strip(c), chain=[el], k=8, mode="finite", slack=3))
+            cands.append(dict(_strip(c), chain=_strip({"chain": [el]})["chain"], k=8, mode="finite", slack=3))
     _attach(cands)
     for x in cands:
-        yield x
+        if not _oversized(x):
+            yield x
 
 
 def classify(c, io, drv):
     """<blamed stage>:<what fails> - coarse on purpose: one signature per stage and failure kind."""
+    if c["entry"] == "ctl":
+        st = c["chain"][0]["st"]
+        if "err" in io or "A_err" in io:
+            return "%s:control:err:%s" % (st, (io.get("err") or io["A_err"]).split(":")[0])
+        if "B_err" in io:
+            return "%s:control:err:%s" % (st, io["B_err"].split(":")[0])
+        return "%s:control:%s" % (st, "value-lands-late-or-early" if io.get("first_diff") is not None else "schedule")
     if c["entry"] != "reads":
         return c["entry"] + ":" + ("err:" + io["err"] if "err" in io else "over-read")
     names = [el["st"] for el in c["chain"]]
     if "err" in io:
+        if io.get("aux_tripped"):
+            own = [a[0] for a in io.get("aux", []) if a[2] in io["aux_tripped"]]
+            return "%s:aux-%s:over-read" % (names[own[0]] if own else names[0], io["aux_tripped"][0])
         return "%s:err:%s" % (names[0] if len(names) == 1 else "chain", io["err"])
     for vec in (io["c0"], io.get("c1", [])):
         if any(vec):
             i = next(k for k, v in enumerate(vec) if v)
-            return "%s:reads-at-construction" % (names[i] if i < len(names) else names[vec_stage(io, i, len(names))])
+            if i >= len(names):
+                a = io["aux"][i - len(names)] if i - len(names) < len(io["aux"]) else None
+                return "%s:aux-%s:reads-at-construction" % (names[a[0]] if a else names[0], a[2] if a else "?")
+            return "%s:reads-at-construction" % names[i]
     want = drv["spec"] if c["mode"] != "drain" else drv["model"]
     if c["mode"] == "drain" and io["outs"] != drv["outs"] and \
             all(g == e[:len(g)] or g[:len(e)] == e for g, e in zip(io["levels"], want)):
@@ -960,13 +1443,10 @@ def classify(c, io, drv):
             if j >= len(exp):
                 return "%s:extra-outputs" % names[i]
             return "%s:%s" % (names[i], "over-read" if got[j] > exp[j] else "under-read")
-    for (i, rule, got) in io["aux"]:
-        if got != want[i][:len(got)]:
-            return "%s:aux-source" % names[i]
+    if c["mode"] != "drain":
+        for a, (i, rule, name, got) in enumerate(io["aux"]):
+            exp = drv["aux_spec"][a][:len(got)]
+            if got != exp:
+                j = next(k for k in range(len(got)) if k >= len(exp) or got[k] != exp[k])
+                return "%s:aux-%s:%s" % (names[i], name, "over-read" if j >= len(exp) or got[j] > exp[j] else "under-read")
     return "%s:other" % names[0]
-
-
-def vec_stage(io, i, nst):
-    """index of the stage owning auxiliary source number i - nst"""
-    k = i - nst
-    return io["aux"][k][0] if 0 <= k < len(io["aux"]) else 0
